@@ -42,7 +42,7 @@ ASSUMPTIONS = {
 TIERS = {
     "C15": {
         "quick": {"runs": 2500, "chunk": 40, "per_run_timeout": 120, "wall_cap": 300},
-        "thorough": {"runs": 60000, "chunk": 100, "per_run_timeout": 300, "wall_cap": 3000},
+        "thorough": {"runs": 60000, "chunk": 100, "per_run_timeout": 300, "wall_cap": 2400},
     }
 }
 
